@@ -90,8 +90,8 @@ func runC12(c *Check) {
 	// O1 error discipline
 	for i, r := range Returns(I) {
 		k := fmt.Sprintf("return#%d", i)
-		errs := Origins(r.Results[1])
-		outs := Origins(r.Results[0])
+		errs := RetOrigins(r, 1)
+		outs := RetOrigins(r, 0)
 		nilErr, nonNil := false, false
 		for _, e := range errs {
 			if IsNilConst(e) {
@@ -176,7 +176,7 @@ func runC12(c *Check) {
 					continue
 				}
 				ok := true
-				for _, o := range Origins(ret.Results[0]) {
+				for _, o := range RetOrigins(ret, 0) {
 					if !IsResultOf(o, hc, 0) {
 						ok = false
 					}
@@ -604,7 +604,7 @@ func c12FindWaits(I *ssa.Function) []c12Wait {
 					} else if !GuardedBy(H, r, de) {
 						okH = false
 					} else {
-						for _, o := range Origins(r.Results[0]) {
+						for _, o := range RetOrigins(r, 0) {
 							if IsNilConst(o) {
 								okH = false
 							}
